@@ -13,9 +13,14 @@
 
 void harness(void)
 {
-    unsigned char s[VF_N + 1];
+    unsigned char buf[VF_N + 1];
     unsigned n = nondet_uint();
     VF_ASSUME(n >= 1 && n <= VF_N);
+#ifdef VF_TAIL_ALIGN     /* terminator = last byte of the object */
+    unsigned char *s = buf + (VF_N - n);
+#else
+    unsigned char *s = buf;
+#endif
 #ifdef VF_PREFIXLEN
     /* leading part: VF_PREFIXLEN bytes, one symbolic fill letter with up to 3 dots at symbolic positions */
     unsigned char fill = nondet_uchar();
@@ -28,10 +33,9 @@ void harness(void)
 #ifdef VF_PREFIXLEN
         if (i < cut) c = (i == d0 || i == d1 || i == d2) ? '.' : fill;
 #endif
-        s[i] = (i < n) ? c : 0;
-        if (i < n) VF_ASSUME(c != 0);
+        if (i < n) { VF_ASSUME(c != 0); s[i] = c; }
     }
-    s[VF_N] = 0;
+    s[n] = 0;
     VF_ASSUME(ref_domain(s, n, 0));          /* the library only asks about valid host names */
     VF_ASSUME(s[n - 1] != '.');              /* without root dot */
     int r = is_special_domain((const char *) s, (const char *) s + n);
